@@ -59,6 +59,8 @@ Lemma host_step_eq s0 o :
     | OExecute => run_stack (sfuel (exec_pre s)) (exec_pre s)
     | OReset => reset s
     | ORecompile k => recompile k s
+    | OStartMissing k =>
+        if memb k (scripts s) then let '(c, s1) := new_class k s in destroy_class (dfuel s1) c s1 else s
     | ODestroy => reset s
     end.
 Proof. unfold host_step, start_pre, exec_pre. destruct (ub s0 || oof s0); [reflexivity|]. destruct o; reflexivity. Qed.
@@ -132,6 +134,16 @@ Proof.
   destruct (ev_ctl _ _ _ _ R3) as (E & _). exact E.
 Qed.
 
+Lemma failed_start_stack k s : stack (let '(c, s1) := new_class k s in destroy_class (dfuel s1) c s1) = stack s.
+Proof.
+  unfold new_class. set (c := nextid s).
+  set (s1 := set_chain (c :: chain _) (set_cpool (cpool _ ++ [c]) (set_classes (set (classes (set_nextid (c + 1) s)) c (mkC k [])) (set_nextid (c + 1) s)))).
+  assert (Ef : dfuel s1 = S (pred (dfuel s1))) by reflexivity. rewrite Ef.
+  rewrite destroy_class_empty; [reflexivity| |].
+  - change (cpool s1) with (cpool s ++ [c]). apply in_or_app. right. now left.
+  - unfold clsof. change (classes s1) with (set (classes s) c (mkC k [])). now rewrite gss.
+Qed.
+
 Theorem host_step_good sc cl s o :
   Good sc cl s -> stack s = [] -> unflagged (host_step s o) ->
   exists sc' cl', Good sc' cl' (host_step s o) /\ stack (host_step s o) = [].
@@ -140,7 +152,7 @@ Proof.
   pose proof (good_out sc cl s G) as G0.
   assert (Est0 : stack (set_out [] s) = []) by exact Est.
   generalize dependent (set_out [] s). intros s0 G0 Est0.
-  destruct o as [p|dt| | |k|]; intros [Hub Hoo].
+  destruct o as [p|dt| | |k|k|]; intros [Hub Hoo].
   - destruct (start_pre_good sc cl p s0 G0 Est0) as (sc1 & cl1 & G1).
     destruct (run_stack_good _ _ _ _ G1 Hub Hoo) as (sc' & cl' & G').
     exists sc', cl'. split; [exact G'|]. apply run_stack_empties. split; assumption.
@@ -151,6 +163,8 @@ Proof.
     exists sc', cl'. split; [exact G'|]. apply run_stack_empties. split; assumption.
   - exists sc, cl. split; [now apply good_reset|]. rewrite (reset_stack sc cl s0 G0). exact Est0.
   - exists sc, cl. split; [now apply good_recompile|]. rewrite (recompile_stack sc cl s0 k G0). exact Est0.
+  - exists sc, cl. destruct (memb k (scripts s0)); [|split; assumption].
+    split; [now apply good_failed_start|]. rewrite failed_start_stack. exact Est0.
   - exists sc, cl. split; [now apply good_reset|]. rewrite (reset_stack sc cl s0 G0). exact Est0.
 Qed.
 
@@ -272,3 +286,30 @@ Proof.
   intros ops sc cl s G Est Hu. destruct (reach_good ops sc cl s G Est Hu) as (sc' & cl' & G' & _).
   exact (timer_elements_ok sc' cl' _ G').
 Qed.
+
+Lemma failed_start_pools sc cl k s :
+  Good sc cl s ->
+  let s' := (let '(c, s1) := new_class k s in destroy_class (dfuel s1) c s1) in
+  Good sc cl s' /\ cpool s' = cpool s /\ chain s' = chain s /\ tpool s' = tpool s /\ vpool s' = vpool s.
+Proof.
+  intro G. cbv zeta. split; [now apply good_failed_start|].
+  unfold new_class. set (c := nextid s).
+  set (s1 := set_chain (c :: chain _) (set_cpool (cpool _ ++ [c]) (set_classes (set (classes (set_nextid (c + 1) s)) c (mkC k [])) (set_nextid (c + 1) s)))).
+  assert (Hnc : ~ In c (cpool s)) by (intro Hx; pose proof (g_fresh _ _ _ G c (or_intror (or_intror Hx))); unfold c in *; lia).
+  assert (Hnch : ~ In c (chain s)) by (intro Hx; apply Hnc; now apply (d_chin _ _ _ (g_inv _ _ _ G))).
+  assert (Ef : dfuel s1 = S (pred (dfuel s1))) by reflexivity. rewrite Ef.
+  rewrite destroy_class_empty.
+  2:{ change (cpool s1) with (cpool s ++ [c]). apply in_or_app. right. now left. }
+  2:{ unfold clsof. change (classes s1) with (set (classes s) c (mkC k [])). now rewrite gss. }
+  split; [|split; [|split; reflexivity]].
+  - rewrite cpool_destroy_empty. change (cpool s1) with (cpool s ++ [c]). rewrite remove_app, (remove_notin c (cpool s) Hnc).
+    unfold remove. cbn [filter]. rewrite N.eqb_refl. cbn [negb]. apply app_nil_r.
+  - rewrite chain_destroy_empty. change (chain s1) with (c :: chain s). unfold remove. cbn [filter]. rewrite N.eqb_refl. cbn [negb].
+    fold (remove c (chain s)). now apply remove_notin.
+Qed.
+
+Lemma reset_forgets_globals s v k : get (gvars (reset s)) v = 0 /\ get (refs (reset s)) k = None.
+Proof. split; apply get_empty. Qed.
+Lemma timing_commands_ok sc cl s b d :
+  Good sc cl s -> healthy s b -> Good sc cl (wait_on b d s) /\ Good sc cl (pause_on b s).
+Proof. intros G Hb. split; [exact (good_wait_on sc cl s b d G Hb)|exact (good_pause_on sc cl s b G Hb)]. Qed.
